@@ -40,6 +40,12 @@ def r_df_columns(ctx):
             ctx.violation("R-DF-COLUMNS", where, "one DataFrame built from a dict of columns", f"{len(calls)} DataFrame call(s)",
                           "processscheduler/solution.py")
             continue
+        # what to_df returns is that data frame itself (a filtered or re-indexed frame drops or renumbers rows)
+        made = ("call", calls[0].data["name"], calls[0].data["args"], calls[0].data["kwargs"])
+        if not (isinstance(run.retval, tuple) and norm(run.retval) == norm(made)):
+            ctx.violation("R-DF-COLUMNS", where, "returns the data frame it builds",
+                          f"returns {show(run.retval)[:160] if isinstance(run.retval, tuple) else run.retval}, not the DataFrame built from "
+                          f"the columns", "processscheduler/solution.py")
         cols = {}
         for ent in calls[0].data["args"][0][1]:
             if ent[0] == "tuple" and is_const(ent[1][0]):
@@ -220,7 +226,8 @@ def r_smt_same_handle(ctx):
                                   f"{LOC}:{ev.site.lineno}")
                 else:
                     ctx.ok("R-ATTR", f"{where}: {ev.data['name']}() exists on {classes}")
-            used = any(any(s == ("mcall", ev.data["recv"], ev.data["name"], ev.data["args"], ev.data["kwargs"]) for s in subterms(w.data["args"][0]))
+            # the text written IS the serialisation, not something computed from it (a filtered or truncated text is another system)
+            used = any(norm(w.data["args"][0]) == norm(("mcall", ev.data["recv"], ev.data["name"], ev.data["args"], ev.data["kwargs"]))
                        for w in writes if w.data["args"])
             if used:
                 ctx.ok("R-SMT-SAME-HANDLE", f"{where} [{describe_config(run)[:60]}]: the text written is the serialisation of self._solver")
@@ -253,6 +260,24 @@ def r_json_fields(ctx):
         dropping = [k for k in kw if k not in ("indent", "exclude")]
         if dropping:
             ok = False
+    # ... and what to_json returns / to_json_file writes is that dump itself
+    for run in runs_of(ctx, Entry("method", cls="BaseModelWithJson", name="to_json")):
+        rv = run.retval
+        if not (isinstance(rv, tuple) and rv[0] == "mcall" and rv[1] == SELF and rv[2] == "model_dump_json"):
+            ok = False
+            ctx.violation("R-JSON-FIELDS", "BaseModelWithJson.to_json", "returns the dump itself",
+                          f"returns {show(rv)[:160] if isinstance(rv, tuple) else rv}: the document is computed from the dump, not the dump",
+                          "processscheduler/base.py")
+    for run in runs_of(ctx, Entry("method", cls="BaseModelWithJson", name="to_json_file", opaque=("to_json",))):
+        ws = [ev for ev in run.events_of("mcall") if ev.data["name"] == "write"]
+        good = len(ws) == 1 and ws[0].data["args"] and isinstance(ws[0].data["args"][0], tuple) and ws[0].data["args"][0][0] == "mcall" \
+            and ws[0].data["args"][0][1] == SELF and ws[0].data["args"][0][2] == "to_json"
+        if good:
+            ctx.ok("R-JSON-FIELDS", "to_json_file writes exactly to_json()")
+        else:
+            ok = False
+            ctx.violation("R-JSON-FIELDS", "BaseModelWithJson.to_json_file", "writes exactly to_json()",
+                          f"writes {[show(w.data['args'][0])[:120] for w in ws if w.data['args']]}", "processscheduler/base.py")
     if ok:
         ctx.ok("R-JSON-FIELDS", "to_json dumps every field except `problem`")
     else:
